@@ -34,6 +34,7 @@ def generate(seed, stratum, tier):
   objs = aw.default_objects(nobj, spied=True)
   for o in objs:
     o['spied'] = rng.random() < 0.8
+    o['instrumented'] = rng.random() < 0.75     # ActiveObject(instrumented=False): no spy, no trace
     if rng.random() < 0.4:
       o['react'] = {'SA': [{'op': rng.choice(['post_fifo', 'post_lifo']), 'sig': rng.choice(['SB', 'SC']), 'id': 1, 'max': 2}]}
   cap = 500 if stratum == 'no-overflow' else rng.choice([3, 4, 6])
